@@ -63,6 +63,7 @@ type Leg interface {
 	Counts() (quick, thorough, shards int)
 	check(t *testing.T)
 	replay(raw json.RawMessage) (Result, *Fail)
+	fuzzProp() func(*rapid.T)
 }
 
 type leg[C any] struct {
@@ -116,6 +117,43 @@ func safeRun[C any](run func(C) (Result, *Fail), c C) (res Result, f *Fail) {
 type PanicWithStack struct {
 	Value any
 	Stack string
+}
+
+// fuzzProp is the leg's property in the form rapid.MakeFuzz wants: the fuzzer's
+// bytes drive the leg's own generator, the leg's own runner is the oracle.
+func (l *leg[C]) fuzzProp() func(*rapid.T) {
+	return func(rt *rapid.T) {
+		c := l.gen(rt)
+		js, err := json.Marshal(c)
+		if err != nil {
+			panic("harness: case not serialisable: " + err.Error())
+		}
+		_, f := safeRun(l.run, c)
+		if f == nil || IsKnown(f.Key) {
+			return
+		}
+		if strings.HasPrefix(f.Key, "harness/") {
+			fmt.Printf("VERIF-INFRA %s\n", oneLine(f.Error()))
+			rt.Skip("harness fault")
+		}
+		if os.Getenv("VERIF_FUZZ_SAVE") != "" {
+			reportFailure(l.name, &failRec{caseJSON: js, fail: f})
+		}
+		rt.Fatalf("%s", f.Error())
+	}
+}
+
+func (l *plainLeg) fuzzProp() func(*rapid.T) { return nil }
+
+// FuzzLeg turns a registered rapid leg into a native fuzz target.
+func FuzzLeg(f *testing.F, name string) {
+	for _, l := range registry {
+		if l.LegName() == name && l.fuzzProp() != nil {
+			f.Fuzz(rapid.MakeFuzz(l.fuzzProp()))
+			return
+		}
+	}
+	f.Skip("no such leg: " + name)
 }
 
 func (l *leg[C]) check(t *testing.T) {
@@ -442,6 +480,23 @@ func reportFailure(legName string, fr *failRec) {
 		fmt.Printf("VERIF-INFRA cannot write replay: %v\n", err)
 	}
 	fmt.Printf("VERIF-FAIL property=%s leg=%s key=%s replay=%s msg=%s\n", col.prop, legName, fr.fail.Key, path, oneLine(fr.fail.Msg))
+}
+
+// FuzzReport is the failure path of native fuzz targets. Known findings are passed
+// over (the campaign continues). When $VERIF_FUZZ_SAVE is set (the driver re-runs a
+// saved crasher that way) the failing case is written as an ordinary replay file of
+// the named leg, so that `check --replay` reproduces it without the fuzzer.
+func FuzzReport(t *testing.T, legName string, c any, f *Fail) {
+	if f == nil {
+		return
+	}
+	if IsKnown(f.Key) {
+		return
+	}
+	if os.Getenv("VERIF_FUZZ_SAVE") != "" {
+		reportFailure(legName, &failRec{fail: f, caseJSON: MustJSON(c)})
+	}
+	t.Fatalf("%s", f.Error())
 }
 
 // saveCurrent records the case about to run, so that a crash of the whole process
